@@ -14,7 +14,7 @@ import spikeglx
 from pyvc.api import harness, bounded, property_meta, run_function
 from pyvc.core import SV, term
 from pyvc import arrays as A, fsmodel
-from pyvc.interp import SObj
+from pyvc.interp import SObj, PyRaise
 
 PROPERTY = "C11"
 property_meta(
@@ -151,18 +151,105 @@ def h_online(H):
         S.explore(body)
 
 
+def replay_acquiring(vals, oid):
+    """the shipped metadata of a recording still being acquired (no fileSizeBytes / fileTimeSecs yet) + a binary with a partial trailing frame"""
+    import shutil
+    import pathlib
+    m = pathlib.Path(spikeglx.__file__).parent / "tests" / "fixtures" / "sampleNP2.4_4shanks_while_acquiring_incomplete.ap.meta"
+    bad = []
+    for extra in (0, 1, 7, 769):
+        for iw in (False, True):
+            d = tempfile.mkdtemp(prefix="c11_")
+            try:
+                b = os.path.join(d, "x.imec0.ap.bin")
+                nc = int(spikeglx.read_meta_data(m)["nSavedChans"])
+                data = np.random.default_rng(extra).integers(-100, 100, size=(50 * nc + extra,), dtype=np.int16)
+                data.tofile(b)
+                shutil.copy(m, b[:-3] + "meta")
+                try:
+                    sr = spikeglx.OnlineReader(b, ignore_warnings=iw)
+                    nfr = (50 * nc + extra) // nc
+                    if sr.shape != (nfr, nc) or not np.array_equal(np.asarray(sr._raw), data[:nfr * nc].reshape(nfr, nc)):
+                        bad.append({"trailing_int16_words": extra, "ignore_warnings": iw, "shape": sr.shape})
+                    sr.close()
+                except Exception as e:
+                    bad.append({"trailing_int16_words": extra, "ignore_warnings": iw, "raised": repr(e)})
+            finally:
+                shutil.rmtree(d, ignore_errors=True)
+    return {"failed": bool(bad), "cases": bad[:4]}
+
+
+@harness(PROPERTY, "online_open_while_acquiring", functions=["spikeglx:Reader.open", "spikeglx:OnlineReader.ns"], replay=replay_acquiring,
+         clause="recording still in progress (metadata without the final size / duration fields, binary possibly ending in a partial frame): opening succeeds and exposes the complete frames")
+def h_acquiring(H):
+    S = H.session("online.acquiring")
+
+    def body(it):
+        obj, nbytes, nc, rate, ftsec = sym_reader(it, spikeglx.OnlineReader, ".bin", 2, online=True)
+        # A-SGLX: while SpikeGLX is acquiring, the .meta has no fileSizeBytes / fileTimeSecs (shipped fixture ..._while_acquiring_incomplete.ap.meta)
+        for k_ in ("fileSizeBytes", "fileTimeSecs"):
+            obj.attrs["meta"].pop(k_, None)
+        iw = z3.Bool("ignore_warnings")
+        obj.attrs["ignore_warnings"] = SV(iw)
+        H.input(nbytes=nbytes, nc=nc, fs=rate, ignore_warnings=iw)
+        try:
+            run_function(it, spikeglx.Reader.open, [obj])
+        except PyRaise as e:
+            it.ctx.oblige(f"acquiring.open_does_not_raise.{type(e.exc).__name__}", z3.BoolVal(False), "post", f"open() raises {type(e.exc).__name__}: {str(e.exc)[:80]}", assume=False)
+            return
+        raw = obj._raw
+        ns = term(it.getattr(obj, "ns"))
+        it.ctx.oblige("acquiring.ns_eq_floor", z3.And(ns * nc * 2 <= nbytes, nbytes < (ns + 1) * nc * 2), "post")
+        it.ctx.oblige("acquiring.open_shape", z3.And(A.T(raw.shape[0]) == ns, A.T(raw.shape[1]) == nc), "post")
+    S.explore(body, may_raise=True)
+
+
 class GhostMtscomp:
     _pyvc_ok = True
     """A-MTSCOMP: mtscomp.Reader after open(): .shape == (samples stored in the stream, channels)"""
 
-    def __init__(self, shape):
+    def __init__(self, shape, sample_rate=None):
         self.shape = shape
+        # what the .ch header records next to the chunk table: stream length, channel count and the sampling rate given to the compressor
+        # (Reader.compress_file passes the metadata rate; a file compressed by another tool may carry the nominal rate)
+        self.n_samples = shape[0]
+        self.n_channels = shape[1]
+        self.sample_rate = sample_rate
 
     def open(self, *a, **k):
         return None
 
 
-@harness(PROPERTY, "open_cbin", functions=["spikeglx:Reader.open"], clause="compressed stream shorter/longer than announced: sample count follows the stream")
+def replay_cbin(vals, oid):
+    """real .cbin files whose stream length disagrees with the metadata: compressed by the reader itself and by mtscomp directly with the
+    nominal rate in the .ch header; opened with and without ignore_warnings; compared with the .bin of the same samples"""
+    import shutil
+    import mtscomp
+    bad = []
+    for fs_meta, ch_rate in ((30000.0, None), (30003.0003, 30000.0), (30000.39, 30000)):
+        for nstream, announced in ((7000, 9000), (7000, 5000), (45000, 90000)):
+            for iw in (False, True):
+                d, b, raw = _mkfile(nstream * 2 * 2, 2, fs_meta, announced, 2, None)
+                try:
+                    cb = b[:-3] + "cbin"
+                    mtscomp.compress(b, cb, b[:-3] + "ch", sample_rate=ch_rate if ch_rate is not None else fs_meta, n_channels=2, dtype=np.int16, chunk_duration=0.1, n_threads=1, check_after_compress=False)
+                    a = spikeglx.Reader(b, ignore_warnings=iw)
+                    os.rename(b, b + ".away")
+                    c = spikeglx.Reader(cb, ignore_warnings=iw)
+                    tail = c[nstream - 50:, :] if c.ns >= 50 else None
+                    ok = c.shape == (nstream, 2) == a.shape and c.ns == nstream and abs(c.rl - nstream / c.fs) < 1e-6 and tail is not None and tail.shape[0] == 50 and np.array_equal(tail, a[nstream - 50:, :])
+                    if not ok:
+                        bad.append({"meta_rate": fs_meta, "ch_rate": ch_rate, "samples_in_stream": nstream, "announced": announced, "ignore_warnings": iw, "cbin_shape": c.shape, "bin_shape": a.shape, "rl": c.rl})
+                    a.close()
+                    c.close()
+                except Exception as e:
+                    bad.append({"meta_rate": fs_meta, "ch_rate": ch_rate, "samples_in_stream": nstream, "announced": announced, "ignore_warnings": iw, "raised": repr(e)[:120]})
+                finally:
+                    shutil.rmtree(d, ignore_errors=True)
+    return {"failed": bool(bad), "cases": bad[:4]}
+
+
+@harness(PROPERTY, "open_cbin", functions=["spikeglx:Reader.open"], replay=replay_cbin, clause="compressed stream shorter/longer than announced: sample count follows the stream")
 def h_cbin(H):
     import mtscomp
     from pyvc import models
@@ -175,7 +262,13 @@ def h_cbin(H):
         it.ctx.assume(nstream >= 1)
         ch = fsmodel.GhostPath(it.session.ghost_fs, ("data",), "rec.imec0.ap.ch")
         obj.attrs["ch_file"] = ch
-        it.session.contracts[mtscomp.Reader] = lambda it_, a, k: GhostMtscomp((SV(nstream), SV(nc)))
+        ch_rate = z3.Real("ch_sample_rate")
+        it.ctx.assume(ch_rate > 0)
+        it.session.contracts[mtscomp.Reader] = lambda it_, a, k: GhostMtscomp((SV(nstream), SV(nc)), SV(ch_rate))
+        # both settings of ignore_warnings (streaming readers set it): it silences the warning, it must not change what is exposed
+        iw = z3.Bool("ignore_warnings")
+        obj.attrs["ignore_warnings"] = SV(iw)
+        H.input(nstream=nstream, nc=nc, fs=rate, fileTimeSecs=ftsec, ch_sample_rate=ch_rate, ignore_warnings=iw)
         run_function(it, spikeglx.Reader.open, [obj])
         ns = term(it.getattr(obj, "ns"))
         it.ctx.oblige("cbin.ns_eq_stream", ns == nstream, "post", "exposed sample count == samples present in the compressed stream")
@@ -184,7 +277,7 @@ def h_cbin(H):
 
 
 @bounded(PROPERTY, "native_truncation", bound="nc in {1,2,5,17,385}, 1..5 complete frames + every trailing byte count 0..frame-1 (quick: sampled to <=12 per nc), "
-         "announced length in {exact, -1, +3, 0}, fs in {30000, 2500, 30000.533, 1953.1}, Reader + OnlineReader; large ns up to 3e9 for the ns->fileTimeSecs->ns round trip",
+         "announced length in {exact, -1, +3, 0}, fs in {30000, 2500, 30000.533, 1953.1}, Reader + OnlineReader; .cbin streams of 7000 / 45000 samples announced as 9000 / 5000 / 90000, .ch rate == / != metadata rate, ignore_warnings on / off; large ns up to 3e9 for the ns->fileTimeSecs->ns round trip",
          clause="file-level replay of truncation; binary64 round trip of the sample count")
 def b_native(B):
     for nc in (1, 2, 5, 17, 385):
@@ -200,6 +293,8 @@ def b_native(B):
                             r = replay_open({"nbytes": nbytes, "nc": nc, "fs": fs, "fileTimeSecs": claimed / fs}, "", cls, 2)
                             B.case((nc, nfr, t, claimed, fs, cls.__name__), not r["failed"], detail=r,
                                    inputs={"nbytes": nbytes, "nc": nc, "fs": fs, "fileTimeSecs": claimed / fs})
+    r = replay_cbin({}, "")
+    B.case("compressed_stream_length_disagrees_with_metadata", not r["failed"], detail=r)
     # round trip of the count through the float duration (what open() stores and ns reads back)
     for _ in range(3000 if B.tier == "quick" else 100000):
         k = B.rng.randrange(1, 3 * 10 ** 9)
